@@ -165,6 +165,21 @@ static void dispatch_sweep() {
 #else
 	g_n = 0; m.exit();
 	{ Rec want[2]; int n = 0; const int a = N - 1; want[n++] = Rec{static_cast<int16_t>(a), M_EXIT, 0, nullptr}; if (VX_HEAD) want[n++] = Rec{-1, M_EXIT, 0, nullptr}; ++me().cases; expect_trace("exit()", a, -1, want, n, rp); if (m.isActive()) violation("dispatch-activity", rp, "active after exit()"); }
+	// re-activation: whatever happened during the previous activation -- a plain one, one that ended in state k, one that was left
+	// with a request to k still unprocessed -- the next enter() starts in the first declared state and runs only its callbacks
+	for (int mode = 0; mode < 3; ++mode) for (int k = 0; k < N; k += (mode == 0 ? N : (N > 16 ? 5 : 1))) {
+		g_n = 0; m.enter(); ++me().cases;
+		{ Rec want[4]; int n = 0; if (VX_HEAD) want[n++] = Rec{-1, M_EG, 0, nullptr}; want[n++] = Rec{0, M_EG, 0, nullptr}; if (VX_HEAD) want[n++] = Rec{-1, M_ENTER, 0, nullptr}; want[n++] = Rec{0, M_ENTER, 0, nullptr};
+			char what[48]; snprintf(what, sizeof what, "enter() again (mode %d, k=%d)", mode, k); expect_trace(what, -1, 0, want, n, rp, "initial-state");
+			if (m.activeStateId() != 0) { violation("initial-state", rp, "N=%d: second activation starts in state %d, the first declared state must be (previous activation: %s %d)", N, m.activeStateId(), mode == 2 ? "left with an unprocessed request to" : "ended in", k); } }
+		g_n = 0; m.update(); ++me().cases;
+		{ Rec wu[6]; int u = 0; if (VX_HEAD) wu[u++] = Rec{-1, M_PRE_UPDATE, 0, nullptr}; wu[u++] = Rec{0, M_PRE_UPDATE, 0, nullptr}; if (VX_HEAD) wu[u++] = Rec{-1, M_UPDATE, 0, nullptr}; wu[u++] = Rec{0, M_UPDATE, 0, nullptr}; wu[u++] = Rec{0, M_POST_UPDATE, 0, nullptr}; if (VX_HEAD) wu[u++] = Rec{-1, M_POST_UPDATE, 0, nullptr};
+			if (m.activeStateId() == 0) expect_trace("update after re-activation", 0, 0, wu, u, rp); }
+		if (mode == 1 && m.activeStateId() != k) m.immediateChangeTo(static_cast<ffsm2::StateID>(k));
+		if (mode == 2) m.changeTo(static_cast<ffsm2::StateID>(k));
+		g_n = 0; m.exit();
+		if (m.isActive()) violation("dispatch-activity", rp, "active after exit()");
+	}
 #endif
 }
 
